@@ -53,3 +53,56 @@ def c09(run):
     trace_stage(run, "sbf-tables", "supply",
                 nontrivial=lambda e: e["in"]["supply"].get("Q", 1) < e["in"]["supply"].get("P", 1),
                 keyfn=lambda e: e["in"]["supply"])
+
+
+def _tagged(e, *tags):
+    t = e.get("in", {}).get("tags", [])
+    return any(x in t for x in tags)
+
+
+@check("C10")
+def c10(run):
+    run.cov["rule"] = ("eta events: number_arrivals tables on 0..H for every Periodic (T<=6, thorough 12), Sporadic (J<=2T+2), "
+                       "all delta-min prefixes of length<=3 with entries<=6 (plain and auto-extrapolating), their Propagated / "
+                       "clone_with_jitter images, plus seeded random compositions of depth<=2; non-trivial = the table is not constant; "
+                       "distinct = canonical JSON of the model description")
+    run.assumptions += ["Eta of Arrival.tla is tied to explicit event generators by MCArrivalProc (R1)",
+                        "window lengths explored <= 260"]
+    trace_stage(run, "eta-tables", "eta",
+                nontrivial=lambda e: "eta" in e["out"] and len(set(e["out"]["eta"])) > 2,
+                keyfn=lambda e: e["in"].get("m"))
+
+
+@check("C11")
+def c11(run):
+    run.cov["rule"] = ("steps events: raw items of steps_iter (until the first item > H) and the table of the same object on 0..H, "
+                       "for arrival bounds and request bounds: enumerated Periodic/Sporadic (jitter up to 3T+1), pairs of components with "
+                       "common steps, all prefixes of length<=3, plus seeded random nested compositions / conversions; "
+                       "non-trivial = at least 3 increase points within H; distinct = canonical JSON of the description")
+    trace_stage(run, "steps", "steps",
+                nontrivial=lambda e: "tbl" in e["out"] and len(set(e["out"]["tbl"])) > 3,
+                keyfn=lambda e: e["in"].get("m") or e["in"].get("dm"))
+
+
+@check("C16")
+def c16(run):
+    run.cov["rule"] = ("demand events: one per node of seeded random request-bound trees (RBF leaves over every arrival x cost kind, "
+                       "Aggregate / Slice / Box / Rc / & nesting up to depth 2): tables of service_needed, job_cost_iter sums, "
+                       "least_wcet_in_interval, service_needed_by_n_jobs (n<=8) and the per-component variant; "
+                       "non-trivial = demand table not constant; distinct = canonical JSON of the subtree")
+    trace_stage(run, "demand", "demand",
+                nontrivial=lambda e: "sn" in e["out"] and len(set(e["out"]["sn"])) > 2,
+                keyfn=lambda e: e["in"].get("dm"))
+
+
+@check("C14")
+def c14(run):
+    run.cov["rule"] = ("cost events: tables of cost_of_jobs / job_cost_iter / least_wcet for every Scalar, every Multiframe vector of "
+                       "length<=3 over 1..4, random cumulative prefixes (plain and caching); cost_trace events: Curve::from_trace for "
+                       "every cost trace of length<=5 over 1..3 (thorough: 7) x every max_n, checked against every run of n consecutive "
+                       "trace entries for n up to the trace length; cost_ext: extrapolate on prefixes; non-trivial = table has >= 3 "
+                       "distinct values; distinct = canonical JSON of the input")
+    trace_stage(run, "cost-tables", "cost",
+                nontrivial=lambda e: "cost" in e["out"] and len(set(e["out"]["cost"])) > 2)
+    trace_stage(run, "cost-traces", "cost_trace",
+                nontrivial=lambda e: ("cost" in e["out"] and len(set(e["out"]["cost"])) > 2) or "ext" in e["out"])
